@@ -210,7 +210,8 @@ def check_case(ctx, c):
 def run(ctx):
     quick = ctx.tier == "quick"
     runs = [("depth2", dict(MaxDepth=2, MaxQubits=3, MaxNonRing=1, Bases="<-BasesAll", Emitting=True)),
-            ("depth3-ring", dict(MaxDepth=3, MaxQubits=2, MaxNonRing=0, Bases="{1, 2, 5, 8, 10}", Emitting=True))]
+            ("depth3-ring", dict(MaxDepth=3, MaxQubits=2, MaxNonRing=0, Bases="{1, 2, 5, 8, 10}", Emitting=True)),
+            ("depth3-one-nonring-X", dict(MaxDepth=3, MaxQubits=3, MaxNonRing=1, Bases="{1}", Emitting=True))]
     if not quick:
         runs = [("depth3", dict(MaxDepth=3, MaxQubits=4, MaxNonRing=1, Bases="<-BasesAll", Emitting=True)),
                 ("depth2-two-nonring", dict(MaxDepth=2, MaxQubits=2, MaxNonRing=2, Bases="{1, 2, 5, 10, 12}", Emitting=True))]
